@@ -89,6 +89,7 @@ type Exec struct {
 	parked     chan struct{}
 	last       *Thread
 	Steps      int
+	LastKind   string // kind of the operation performed by the latest step
 	Deadlock   bool
 	Horizon    bool
 	Diverged   string // non-empty: replay of the prefix did not match
@@ -358,6 +359,7 @@ func (x *Exec) run() {
 			x.Log = append(x.Log, fmt.Sprintf("T%d(%s) %s %#x", t.ID, t.Name, t.kind, t.obj))
 		}
 		x.last = t
+		x.LastKind = t.kind
 		t.Steps++
 		x.Steps++
 		active = t
